@@ -11,6 +11,7 @@
 from __future__ import annotations
 
 import itertools
+import math
 from fractions import Fraction
 from types import SimpleNamespace
 
@@ -388,6 +389,13 @@ def sphere_cov_def(ctx, W, ri, rj, s, value):
         x = [ctx.fresh("sx") for _ in range(m)]
         y = [ctx.fresh("sy") for _ in range(m)]
         sh = 1 - sym.rv(MARGIN)
+        if LINEAR and not EXACT:
+            # witnesses inside the cubes inscribed in the balls (sufficient, linear): |x_k − c_k| ≤ q·α, q < 1/√m
+            q = sym.rv(Fraction(int(1000 / math.sqrt(m)) - 5, 1000))
+            return z3.And(zand([z3.And(x[k] - ci[k] <= q * ai, ci[k] - x[k] <= q * ai) for k in range(m)]),
+                          zand([z3.And(y[k] - cj[k] <= q * aj, cj[k] - y[k] <= q * aj) for k in range(m)]),
+                          zand([dotz(row, [y[k] - x[k] for k in range(m)]) >= s[n] + sym.rv(MARGIN)
+                                for n, row in enumerate(Wq)]))
         return z3.And(sum(((x[k] - ci[k]) * (x[k] - ci[k]) for k in range(m)), sym.rv(0)) <= ai * ai * sh * sh,
                       sum(((y[k] - cj[k]) * (y[k] - cj[k]) for k in range(m)), sym.rv(0)) <= aj * aj * sh * sh,
                       zand([dotz(row, [y[k] - x[k] for k in range(m)]) >= s[n] + sym.rv(MARGIN)
